@@ -22,28 +22,52 @@ from . import mir as M
 from . import mirflow as MF
 
 
+def _untag(t):
+    return re.sub("\u27e8[^\u27e9]*\u27e9", "", t)
+
+
 class Ctx:
     def __init__(self, atoms):
-        self.atoms = [(n, re.compile(rx)) for n, rx in atoms]
+        # atom = (name, regex over the untagged provenance text[, regex over the call-site tagged text])
+        self.atoms = [(a[0], re.compile(a[1]), re.compile(a[2]) if len(a) > 2 else None) for a in atoms]
+        self.atom_sites = {}  # atom name -> set of tagged texts it matched
         self.int_vars = {}   # text -> smt name
         self.bool_vars = {}
         self.notes = []
+        self.domains = []  # extra assertions: an exhaustively matched discriminant takes one of its listed values
+
+    def _atom(self, text):
+        u = _untag(text)
+        for n, rx, srx in self.atoms:
+            if rx.search(u) and (srx is None or srx.search(text)):
+                self.atom_sites.setdefault(n, set()).add(text)
+                return n
+        return None
+
+    def conflated(self):
+        """Atoms that matched call results from more than one call site (two different run-time values under one name)."""
+        bad = []
+        for n, texts in self.atom_sites.items():
+            sites = set(re.findall("\u27e8(bb\\d+)", " ".join(t for t in texts if _untag(t).startswith("call "))))
+            if len(sites) > 1:
+                bad.append("%s (%s)" % (n, ", ".join(sorted(sites))))
+        return bad
 
     def ivar(self, text):
-        for n, rx in self.atoms:
-            if rx.search(text):
-                self.int_vars.setdefault("atom:" + n, n)
-                return n
+        n = self._atom(text)
+        if n is not None:
+            self.int_vars.setdefault("atom:" + n, n)
+            return n
         if text not in self.int_vars:
             self.int_vars[text] = "i%d" % len(self.int_vars)
             self.notes.append("%s = %s" % (self.int_vars[text], text[:140]))
         return self.int_vars[text]
 
     def bvar(self, text):
-        for n, rx in self.atoms:
-            if rx.search(text):
-                self.bool_vars.setdefault("atom:" + n, n)
-                return n
+        n = self._atom(text)
+        if n is not None:
+            self.bool_vars.setdefault("atom:" + n, n)
+            return n
         if text not in self.bool_vars:
             self.bool_vars[text] = "b%d" % len(self.bool_vars)
             self.notes.append("%s = %s" % (self.bool_vars[text], text[:140]))
@@ -220,13 +244,24 @@ class Region:
                 dbg = [k for k, v in fn.debug.items() if v.strip() == loc]
                 o = "flag %s %s" % (loc, dbg[0] if dbg else "")
         out = []
+        exhaustive = False
         for lab, t in b.succs:
             if t not in fn.blocks or fn.blocks[t].cleanup:
                 continue
             # unreachable `otherwise` arms of exhaustive matches
             if fn.blocks[t].kind == "unreachable":
+                exhaustive = exhaustive or lab == "otherwise"
                 continue
             out.append((t, arm_cond(ctx, o, lab, labels)))
+        if exhaustive:
+            listed = [l for l in labels if l != "otherwise"]
+            o2 = _strip(o)
+            m2 = re.match(r"^discr\((.*)\)$", o2)
+            if m2 and _balanced(m2.group(1)) and listed:
+                d = ctx.ivar("discr:" + m2.group(1))
+                dom = "(or %s)" % " ".join("(= %s %s)" % (d, l) for l in listed)
+                if dom not in ctx.domains:
+                    ctx.domains.append(dom)
         return out
 
     def _needs_via(self, b):
@@ -307,7 +342,7 @@ class Region:
                 lines.append("(assert (>= %s 0))" % v)
         for _text, v in sorted(self.ctx.bool_vars.items(), key=lambda kv: kv[1]):
             lines.append("(declare-const %s Bool)" % v)
-        return lines + self.defs
+        return lines + ["(assert %s)" % d for d in self.ctx.domains] + self.defs
 
 
 def solve(lines, z3_bin=None):
@@ -360,10 +395,16 @@ def decides(funcs, fname, start, outcomes, atoms, spec, containing=None, declare
         ob[n] = blocks_of(x)
         if not ob[n]:
             return [MF.Result("inconclusive", "outcome %s (%s) matched nothing in %s" % (n, getattr(x, "name", "?"), fc.name))]
+    MF.SITE_TAGS = True
     try:
         reg = Region(fn, starts, ob, atoms)
     except RecursionError:
         return [MF.Result("inconclusive", "decision region of %s too deep" % fc.name)]
+    finally:
+        MF.SITE_TAGS = False
+    bad = reg.ctx.conflated()
+    if bad:
+        return [MF.Result("inconclusive", "atom(s) match results of several call sites in %s: %s — give the atom a call-site pattern" % (fc.name, "; ".join(bad)))]
     out = []
     for n, formula in spec.items():
         rel = "="
@@ -372,7 +413,7 @@ def decides(funcs, fname, start, outcomes, atoms, spec, containing=None, declare
         lines = reg.smt_prelude()
         # atoms used only by the spec must be declared too
         declared = set(re.findall(r"\(declare-const (\w+) ", "\n".join(lines)))
-        for a, _rx in reg.ctx.atoms:
+        for a, _rx, _srx in reg.ctx.atoms:
             if a not in declared and re.search(r"\b%s\b" % re.escape(a), formula + (assume or "")):
                 kind = "Bool" if a in declare else "Int"
                 lines.append("(declare-const %s %s)" % (a, kind))
@@ -388,7 +429,7 @@ def decides(funcs, fname, start, outcomes, atoms, spec, containing=None, declare
         else:
             lines.append("(assert (not (=> %s %s)))" % (formula, P))
         res, model, dt = solve(lines)
-        smp = {"fn": fc.name, "kind": "DECIDES", "outcome": n, "relation": {"=": "outcome <=> spec", "=>": "outcome => spec", "<=": "spec => outcome"}[rel], "spec": formula[:200], "region_nodes": len(reg.order), "atoms": [a for a, _ in reg.ctx.atoms],
+        smp = {"fn": fc.name, "kind": "DECIDES", "outcome": n, "relation": {"=": "outcome <=> spec", "=>": "outcome => spec", "<=": "spec => outcome"}[rel], "spec": formula[:200], "region_nodes": len(reg.order), "atoms": [a[0] for a in reg.ctx.atoms],
                "opaque_conditions": len([k for k in reg.ctx.bool_vars if not k.startswith("atom:")]), "dropped_back_edges": reg.dropped_back_edges}
         if res == "unsat":
             out.append(MF.Result("holds", "unsat: %s decides `%s` exactly as specified" % (fc.name.split("::")[-1], n), queries=1, seconds=dt, sample=smp))
@@ -398,7 +439,7 @@ def decides(funcs, fname, start, outcomes, atoms, spec, containing=None, declare
             for k, v in sorted(model.items()):
                 if re.match(r"^p\d+$", k):
                     continue
-                label = k if names.get(k, "").startswith("atom:") or k in [a for a, _ in reg.ctx.atoms] else "%s[%s]" % (k, names.get(k, "?")[:50])
+                label = k if names.get(k, "").startswith("atom:") or k in [a[0] for a in reg.ctx.atoms] else "%s[%s]" % (k, names.get(k, "?")[:50])
                 vals.append("%s=%s" % (label, v))
             # does the code reach the outcome on these values?
             out.append(MF.Result("violated", "%s: the code's condition for `%s` differs from the property's (%s) at: %s" % (what or fc.name.split("::")[-1], n, formula[:120], ", ".join(vals)[:400]),
